@@ -123,3 +123,355 @@ Example C08_hypotheses_satisfiable :
   | Err _ => ([], [])
   end = ([1; 2], [(1, 0); (3, 3)]).
 Proof. vm_compute. reflexivity. Qed.
+
+(* ============================================================================================================
+   Any number D >= 1 of spatial axes, multi_channel = True and multi_channel = False (proofs/ConvND.v).
+
+   m, n, s : the D data lengths, filter lengths and strides (lists of equal length, all entries positive; in 'valid'
+   mode n_d <= m_d on every axis); strides are given (Some s) or None = all ones.  Per axis
+       P_d = (m_d + n_d - 1 + s_d - 1) / s_d  ('full')   |   (m_d - n_d + 1 + s_d - 1) / s_d  ('valid'),
+       off_d = 0  ('full')   |   min(m_d, n_d) - 1  ('valid').
+   vmul / vadd / vsub are the pointwise operations on index vectors, sumB n the sum over the box of the filter,
+   inboxb m src the test  0 <= src_d < m_d for all d  (the data is zero outside its box).
+   scipy.signal.convolve / correlate enter through their recorded N-D specifications (model/Conv.v), unchanged. *)
+From SV Require Import proofs.ConvND.
+
+(* multi_channel = True:  out[b, c, p] = sum_i sum_{t in box n} data0[b, i, p*s + off - t] * filt[c, i, t] *)
+Theorem C08_ND_convolve_is_the_convolution_sum :
+  forall (R : StarRing) (b : list Z) (ci co : Z) (m n s : list Z) (full : bool) (st : option (list Z)),
+    Forall (fun k => 0 < k) b -> 0 < ci -> 0 < co ->
+    m <> [] -> length n = length m -> length s = length m ->
+    Forall (fun k => 0 < k) m -> Forall (fun k => 0 < k) n -> Forall (fun k => 0 < k) s ->
+    (full = false -> Forall2 Z.le n m) ->
+    (st = Some s \/ (st = None /\ s = repeat 1 (length m))) ->
+    forall data filt : list Z -> R,
+    let P := zip3 (fun md nd sd => if full then (md + nd - 1 + sd - 1) / sd else (md - nd + 1 + sd - 1) / sd) m n s in
+    let off := zip2 (fun md nd => if full then 0 else Z.min md nd - 1) m n in
+    exists y,
+      convolve (b ++ [ci] ++ m) ([co; ci] ++ n) full st true data filt = Ok (b ++ [co] ++ P, y) /\
+      forall bi c p, inbox b bi -> 0 <= c < co -> inbox P p ->
+        y (bi ++ [c] ++ p) =
+        sumZ ci (fun i => sumB n (fun t =>
+          let src := vsub (vadd (vmul p s) off) t in
+          mul (if inboxb m src then data (bi ++ [i] ++ src) else zero) (filt ([c; i] ++ t)))).
+Proof.
+  intros R b ci co m n s full st Hb Hci Hco Hne Ln Ls Hm Hn Hs Hv Hst data filt.
+  exact (convolve_nd_mc R b m n s full st Hb Hne Ln Ls Hm Hn Hs Hv Hst ci co Hci Hco data filt).
+Qed.
+Print Assumptions C08_ND_convolve_is_the_convolution_sum.
+
+(* multi_channel = True: all three functions return Ok with the requested shapes, and
+   <convolve(x, f), y> = <x, convolve_data_adjoint(y, f)> = <f, convolve_filter_adjoint(y, x)>  for all x, f, y *)
+Theorem C08_ND_adjoints_exact :
+  forall (R : StarRing) (b : list Z) (ci co : Z) (m n s : list Z) (full : bool) (st : option (list Z)),
+    Forall (fun k => 0 < k) b -> 0 < ci -> 0 < co ->
+    m <> [] -> length n = length m -> length s = length m ->
+    Forall (fun k => 0 < k) m -> Forall (fun k => 0 < k) n -> Forall (fun k => 0 < k) s ->
+    (full = false -> Forall2 Z.le n m) ->
+    (st = Some s \/ (st = None /\ s = repeat 1 (length m))) ->
+    let P := zip3 (fun md nd sd => if full then (md + nd - 1 + sd - 1) / sd else (md - nd + 1 + sd - 1) / sd) m n s in
+    exists A AHd AHf : (list Z -> R) -> (list Z -> R) -> (list Z -> R),
+      (forall x f, convolve (b ++ [ci] ++ m) ([co; ci] ++ n) full st true x f = Ok (b ++ [co] ++ P, A x f)) /\
+      (forall y f, convolve_data_adjoint (b ++ [co] ++ P) ([co; ci] ++ n) (b ++ [ci] ++ m) full st true y f
+                   = Ok (b ++ [ci] ++ m, AHd y f)) /\
+      (forall y x, convolve_filter_adjoint (b ++ [co] ++ P) (b ++ [ci] ++ m) ([co; ci] ++ n) full st true y x
+                   = Ok ([co; ci] ++ n, AHf y x)) /\
+      (forall x f y, inner (b ++ [co] ++ P) (A x f) y = inner (b ++ [ci] ++ m) x (AHd y f)) /\
+      (forall x f y, inner (b ++ [co] ++ P) (A x f) y = inner ([co; ci] ++ n) f (AHf y x)).
+Proof.
+  intros R b ci co m n s full st Hb Hci Hco Hne Ln Ls Hm Hn Hs Hv Hst.
+  exact (adjoints_nd_mc R b m n s full st Hb Hne Ln Ls Hm Hn Hs Hv Hst ci co Hci Hco).
+Qed.
+Print Assumptions C08_ND_adjoints_exact.
+
+(* multi_channel = False (no channel axes):  out[b, p] = sum_{t in box n} data0[b, p*s + off - t] * filt[t] *)
+Theorem C08_ND_single_channel_convolve_is_the_convolution_sum :
+  forall (R : StarRing) (b m n s : list Z) (full : bool) (st : option (list Z)),
+    Forall (fun k => 0 < k) b ->
+    m <> [] -> length n = length m -> length s = length m ->
+    Forall (fun k => 0 < k) m -> Forall (fun k => 0 < k) n -> Forall (fun k => 0 < k) s ->
+    (full = false -> Forall2 Z.le n m) ->
+    (st = Some s \/ (st = None /\ s = repeat 1 (length m))) ->
+    forall data filt : list Z -> R,
+    let P := zip3 (fun md nd sd => if full then (md + nd - 1 + sd - 1) / sd else (md - nd + 1 + sd - 1) / sd) m n s in
+    let off := zip2 (fun md nd => if full then 0 else Z.min md nd - 1) m n in
+    exists y,
+      convolve (b ++ m) n full st false data filt = Ok (b ++ P, y) /\
+      forall bi p, inbox b bi -> inbox P p ->
+        y (bi ++ p) =
+        sumB n (fun t =>
+          let src := vsub (vadd (vmul p s) off) t in
+          mul (if inboxb m src then data (bi ++ src) else zero) (filt t)).
+Proof.
+  intros R b m n s full st Hb Hne Ln Ls Hm Hn Hs Hv Hst data filt.
+  exact (convolve_nd_sc R b m n s full st Hb Hne Ln Ls Hm Hn Hs Hv Hst data filt).
+Qed.
+Print Assumptions C08_ND_single_channel_convolve_is_the_convolution_sum.
+
+Theorem C08_ND_single_channel_adjoints_exact :
+  forall (R : StarRing) (b m n s : list Z) (full : bool) (st : option (list Z)),
+    Forall (fun k => 0 < k) b ->
+    m <> [] -> length n = length m -> length s = length m ->
+    Forall (fun k => 0 < k) m -> Forall (fun k => 0 < k) n -> Forall (fun k => 0 < k) s ->
+    (full = false -> Forall2 Z.le n m) ->
+    (st = Some s \/ (st = None /\ s = repeat 1 (length m))) ->
+    let P := zip3 (fun md nd sd => if full then (md + nd - 1 + sd - 1) / sd else (md - nd + 1 + sd - 1) / sd) m n s in
+    exists A AHd AHf : (list Z -> R) -> (list Z -> R) -> (list Z -> R),
+      (forall x f, convolve (b ++ m) n full st false x f = Ok (b ++ P, A x f)) /\
+      (forall y f, convolve_data_adjoint (b ++ P) n (b ++ m) full st false y f = Ok (b ++ m, AHd y f)) /\
+      (forall y x, convolve_filter_adjoint (b ++ P) (b ++ m) n full st false y x = Ok (n, AHf y x)) /\
+      (forall x f y, inner (b ++ P) (A x f) y = inner (b ++ m) x (AHd y f)) /\
+      (forall x f y, inner (b ++ P) (A x f) y = inner n f (AHf y x)).
+Proof.
+  intros R b m n s full st Hb Hne Ln Ls Hm Hn Hs Hv Hst.
+  exact (adjoints_nd_sc R b m n s full st Hb Hne Ln Ls Hm Hn Hs Hv Hst).
+Qed.
+Print Assumptions C08_ND_single_channel_adjoints_exact.
+
+(* ---- the instances D = 1 (multi_channel = False), D = 2, D = 3 (both conventions) in scalar form ---- *)
+Theorem C08_1D_single_channel_convolve_is_the_convolution_sum :
+  forall (R : StarRing) (b : list Z) (full : bool), Forall (fun k => 0 < k) b ->
+  forall m n s, 0 < m -> 0 < n -> 0 < s -> (full = false -> n <= m) ->
+    forall data filt : list Z -> R,
+    let P := if full then (m + n - 1 + s - 1) / s else (m - n + 1 + s - 1) / s in
+    let off := if full then 0 else Z.min m n - 1 in
+    exists y,
+      convolve (b ++ [m]) [n] full (Some [s]) false data filt = Ok (b ++ [P], y) /\
+      forall bi p, inbox b bi -> 0 <= p < P ->
+        y (bi ++ [p]) =
+        sumZ n (fun t =>
+          mul (if (0 <=? p * s + off - t) && (p * s + off - t <? m) then data (bi ++ [p * s + off - t]) else zero)
+              (filt [t])).
+Proof. exact convolve_1d_sc. Qed.
+Print Assumptions C08_1D_single_channel_convolve_is_the_convolution_sum.
+
+Theorem C08_1D_single_channel_adjoints_exact :
+  forall (R : StarRing) (b : list Z) (full : bool), Forall (fun k => 0 < k) b ->
+  forall m n s, 0 < m -> 0 < n -> 0 < s -> (full = false -> n <= m) ->
+    let P := if full then (m + n - 1 + s - 1) / s else (m - n + 1 + s - 1) / s in
+    exists A AHd AHf : (list Z -> R) -> (list Z -> R) -> (list Z -> R),
+      (forall x f, convolve (b ++ [m]) [n] full (Some [s]) false x f = Ok (b ++ [P], A x f)) /\
+      (forall y f, convolve_data_adjoint (b ++ [P]) [n] (b ++ [m]) full (Some [s]) false y f = Ok (b ++ [m], AHd y f)) /\
+      (forall y x, convolve_filter_adjoint (b ++ [P]) (b ++ [m]) [n] full (Some [s]) false y x = Ok ([n], AHf y x)) /\
+      (forall x f y, inner (b ++ [P]) (A x f) y = inner (b ++ [m]) x (AHd y f)) /\
+      (forall x f y, inner (b ++ [P]) (A x f) y = inner [n] f (AHf y x)).
+Proof. exact adjoints_1d_sc. Qed.
+Print Assumptions C08_1D_single_channel_adjoints_exact.
+
+Theorem C08_2D_convolve_is_the_convolution_sum :
+  forall (R : StarRing) (b : list Z) (full : bool), Forall (fun k => 0 < k) b ->
+  forall m1 m2 n1 n2 s1 s2, 0 < m1 -> 0 < m2 -> 0 < n1 -> 0 < n2 -> 0 < s1 -> 0 < s2 ->
+    (full = false -> n1 <= m1 /\ n2 <= m2) ->
+  forall ci co, 0 < ci -> 0 < co -> forall data filt : list Z -> R,
+    exists y,
+      convolve (b ++ [ci; m1; m2]) [co; ci; n1; n2] full (Some [s1; s2]) true data filt =
+        Ok (b ++ [co; if full then (m1 + n1 - 1 + s1 - 1) / s1 else (m1 - n1 + 1 + s1 - 1) / s1;
+                      if full then (m2 + n2 - 1 + s2 - 1) / s2 else (m2 - n2 + 1 + s2 - 1) / s2], y) /\
+      forall bi c p1 p2, inbox b bi -> 0 <= c < co ->
+        0 <= p1 < (if full then (m1 + n1 - 1 + s1 - 1) / s1 else (m1 - n1 + 1 + s1 - 1) / s1) ->
+        0 <= p2 < (if full then (m2 + n2 - 1 + s2 - 1) / s2 else (m2 - n2 + 1 + s2 - 1) / s2) ->
+        y (bi ++ [c; p1; p2]) =
+        sumZ ci (fun i => sumZ n1 (fun t1 => sumZ n2 (fun t2 =>
+          let e1 := p1 * s1 + (if full then 0 else Z.min m1 n1 - 1) - t1 in
+          let e2 := p2 * s2 + (if full then 0 else Z.min m2 n2 - 1) - t2 in
+          mul (if (0 <=? e1) && (e1 <? m1) && ((0 <=? e2) && (e2 <? m2)) then data (bi ++ [i; e1; e2]) else zero)
+              (filt [c; i; t1; t2])))).
+Proof. exact convolve_2d_mc. Qed.
+Print Assumptions C08_2D_convolve_is_the_convolution_sum.
+
+Theorem C08_2D_single_channel_convolve_is_the_convolution_sum :
+  forall (R : StarRing) (b : list Z) (full : bool), Forall (fun k => 0 < k) b ->
+  forall m1 m2 n1 n2 s1 s2, 0 < m1 -> 0 < m2 -> 0 < n1 -> 0 < n2 -> 0 < s1 -> 0 < s2 ->
+    (full = false -> n1 <= m1 /\ n2 <= m2) ->
+  forall data filt : list Z -> R,
+    exists y,
+      convolve (b ++ [m1; m2]) [n1; n2] full (Some [s1; s2]) false data filt =
+        Ok (b ++ [if full then (m1 + n1 - 1 + s1 - 1) / s1 else (m1 - n1 + 1 + s1 - 1) / s1;
+                  if full then (m2 + n2 - 1 + s2 - 1) / s2 else (m2 - n2 + 1 + s2 - 1) / s2], y) /\
+      forall bi p1 p2, inbox b bi ->
+        0 <= p1 < (if full then (m1 + n1 - 1 + s1 - 1) / s1 else (m1 - n1 + 1 + s1 - 1) / s1) ->
+        0 <= p2 < (if full then (m2 + n2 - 1 + s2 - 1) / s2 else (m2 - n2 + 1 + s2 - 1) / s2) ->
+        y (bi ++ [p1; p2]) =
+        sumZ n1 (fun t1 => sumZ n2 (fun t2 =>
+          let e1 := p1 * s1 + (if full then 0 else Z.min m1 n1 - 1) - t1 in
+          let e2 := p2 * s2 + (if full then 0 else Z.min m2 n2 - 1) - t2 in
+          mul (if (0 <=? e1) && (e1 <? m1) && ((0 <=? e2) && (e2 <? m2)) then data (bi ++ [e1; e2]) else zero)
+              (filt [t1; t2]))).
+Proof. exact convolve_2d_sc. Qed.
+Print Assumptions C08_2D_single_channel_convolve_is_the_convolution_sum.
+
+Theorem C08_2D_adjoints_exact :
+  forall (R : StarRing) (b : list Z) (full : bool), Forall (fun k => 0 < k) b ->
+  forall m1 m2 n1 n2 s1 s2, 0 < m1 -> 0 < m2 -> 0 < n1 -> 0 < n2 -> 0 < s1 -> 0 < s2 ->
+    (full = false -> n1 <= m1 /\ n2 <= m2) ->
+  forall ci co, 0 < ci -> 0 < co ->
+    let P1 := if full then (m1 + n1 - 1 + s1 - 1) / s1 else (m1 - n1 + 1 + s1 - 1) / s1 in
+    let P2 := if full then (m2 + n2 - 1 + s2 - 1) / s2 else (m2 - n2 + 1 + s2 - 1) / s2 in
+    exists A AHd AHf : (list Z -> R) -> (list Z -> R) -> (list Z -> R),
+      (forall x f, convolve (b ++ [ci; m1; m2]) [co; ci; n1; n2] full (Some [s1; s2]) true x f
+                   = Ok (b ++ [co; P1; P2], A x f)) /\
+      (forall y f, convolve_data_adjoint (b ++ [co; P1; P2]) [co; ci; n1; n2] (b ++ [ci; m1; m2]) full
+                     (Some [s1; s2]) true y f = Ok (b ++ [ci; m1; m2], AHd y f)) /\
+      (forall y x, convolve_filter_adjoint (b ++ [co; P1; P2]) (b ++ [ci; m1; m2]) [co; ci; n1; n2] full
+                     (Some [s1; s2]) true y x = Ok ([co; ci; n1; n2], AHf y x)) /\
+      (forall x f y, inner (b ++ [co; P1; P2]) (A x f) y = inner (b ++ [ci; m1; m2]) x (AHd y f)) /\
+      (forall x f y, inner (b ++ [co; P1; P2]) (A x f) y = inner [co; ci; n1; n2] f (AHf y x)).
+Proof. exact adjoints_2d_mc. Qed.
+Print Assumptions C08_2D_adjoints_exact.
+
+Theorem C08_2D_single_channel_adjoints_exact :
+  forall (R : StarRing) (b : list Z) (full : bool), Forall (fun k => 0 < k) b ->
+  forall m1 m2 n1 n2 s1 s2, 0 < m1 -> 0 < m2 -> 0 < n1 -> 0 < n2 -> 0 < s1 -> 0 < s2 ->
+    (full = false -> n1 <= m1 /\ n2 <= m2) ->
+    let P1 := if full then (m1 + n1 - 1 + s1 - 1) / s1 else (m1 - n1 + 1 + s1 - 1) / s1 in
+    let P2 := if full then (m2 + n2 - 1 + s2 - 1) / s2 else (m2 - n2 + 1 + s2 - 1) / s2 in
+    exists A AHd AHf : (list Z -> R) -> (list Z -> R) -> (list Z -> R),
+      (forall x f, convolve (b ++ [m1; m2]) [n1; n2] full (Some [s1; s2]) false x f = Ok (b ++ [P1; P2], A x f)) /\
+      (forall y f, convolve_data_adjoint (b ++ [P1; P2]) [n1; n2] (b ++ [m1; m2]) full (Some [s1; s2]) false y f
+                   = Ok (b ++ [m1; m2], AHd y f)) /\
+      (forall y x, convolve_filter_adjoint (b ++ [P1; P2]) (b ++ [m1; m2]) [n1; n2] full (Some [s1; s2]) false y x
+                   = Ok ([n1; n2], AHf y x)) /\
+      (forall x f y, inner (b ++ [P1; P2]) (A x f) y = inner (b ++ [m1; m2]) x (AHd y f)) /\
+      (forall x f y, inner (b ++ [P1; P2]) (A x f) y = inner [n1; n2] f (AHf y x)).
+Proof. exact adjoints_2d_sc. Qed.
+Print Assumptions C08_2D_single_channel_adjoints_exact.
+
+Theorem C08_3D_convolve_is_the_convolution_sum :
+  forall (R : StarRing) (b : list Z) (full : bool), Forall (fun k => 0 < k) b ->
+  forall m1 m2 m3 n1 n2 n3 s1 s2 s3,
+    0 < m1 -> 0 < m2 -> 0 < m3 -> 0 < n1 -> 0 < n2 -> 0 < n3 -> 0 < s1 -> 0 < s2 -> 0 < s3 ->
+    (full = false -> n1 <= m1 /\ n2 <= m2 /\ n3 <= m3) ->
+  forall ci co, 0 < ci -> 0 < co -> forall data filt : list Z -> R,
+    exists y,
+      convolve (b ++ [ci; m1; m2; m3]) [co; ci; n1; n2; n3] full (Some [s1; s2; s3]) true data filt =
+        Ok (b ++ [co; if full then (m1 + n1 - 1 + s1 - 1) / s1 else (m1 - n1 + 1 + s1 - 1) / s1;
+                      if full then (m2 + n2 - 1 + s2 - 1) / s2 else (m2 - n2 + 1 + s2 - 1) / s2;
+                      if full then (m3 + n3 - 1 + s3 - 1) / s3 else (m3 - n3 + 1 + s3 - 1) / s3], y) /\
+      forall bi c p1 p2 p3, inbox b bi -> 0 <= c < co ->
+        0 <= p1 < (if full then (m1 + n1 - 1 + s1 - 1) / s1 else (m1 - n1 + 1 + s1 - 1) / s1) ->
+        0 <= p2 < (if full then (m2 + n2 - 1 + s2 - 1) / s2 else (m2 - n2 + 1 + s2 - 1) / s2) ->
+        0 <= p3 < (if full then (m3 + n3 - 1 + s3 - 1) / s3 else (m3 - n3 + 1 + s3 - 1) / s3) ->
+        y (bi ++ [c; p1; p2; p3]) =
+        sumZ ci (fun i => sumZ n1 (fun t1 => sumZ n2 (fun t2 => sumZ n3 (fun t3 =>
+          let e1 := p1 * s1 + (if full then 0 else Z.min m1 n1 - 1) - t1 in
+          let e2 := p2 * s2 + (if full then 0 else Z.min m2 n2 - 1) - t2 in
+          let e3 := p3 * s3 + (if full then 0 else Z.min m3 n3 - 1) - t3 in
+          mul (if (0 <=? e1) && (e1 <? m1) && ((0 <=? e2) && (e2 <? m2) && ((0 <=? e3) && (e3 <? m3)))
+               then data (bi ++ [i; e1; e2; e3]) else zero)
+              (filt [c; i; t1; t2; t3]))))).
+Proof. exact convolve_3d_mc. Qed.
+Print Assumptions C08_3D_convolve_is_the_convolution_sum.
+
+Theorem C08_3D_single_channel_convolve_is_the_convolution_sum :
+  forall (R : StarRing) (b : list Z) (full : bool), Forall (fun k => 0 < k) b ->
+  forall m1 m2 m3 n1 n2 n3 s1 s2 s3,
+    0 < m1 -> 0 < m2 -> 0 < m3 -> 0 < n1 -> 0 < n2 -> 0 < n3 -> 0 < s1 -> 0 < s2 -> 0 < s3 ->
+    (full = false -> n1 <= m1 /\ n2 <= m2 /\ n3 <= m3) ->
+  forall data filt : list Z -> R,
+    exists y,
+      convolve (b ++ [m1; m2; m3]) [n1; n2; n3] full (Some [s1; s2; s3]) false data filt =
+        Ok (b ++ [if full then (m1 + n1 - 1 + s1 - 1) / s1 else (m1 - n1 + 1 + s1 - 1) / s1;
+                  if full then (m2 + n2 - 1 + s2 - 1) / s2 else (m2 - n2 + 1 + s2 - 1) / s2;
+                  if full then (m3 + n3 - 1 + s3 - 1) / s3 else (m3 - n3 + 1 + s3 - 1) / s3], y) /\
+      forall bi p1 p2 p3, inbox b bi ->
+        0 <= p1 < (if full then (m1 + n1 - 1 + s1 - 1) / s1 else (m1 - n1 + 1 + s1 - 1) / s1) ->
+        0 <= p2 < (if full then (m2 + n2 - 1 + s2 - 1) / s2 else (m2 - n2 + 1 + s2 - 1) / s2) ->
+        0 <= p3 < (if full then (m3 + n3 - 1 + s3 - 1) / s3 else (m3 - n3 + 1 + s3 - 1) / s3) ->
+        y (bi ++ [p1; p2; p3]) =
+        sumZ n1 (fun t1 => sumZ n2 (fun t2 => sumZ n3 (fun t3 =>
+          let e1 := p1 * s1 + (if full then 0 else Z.min m1 n1 - 1) - t1 in
+          let e2 := p2 * s2 + (if full then 0 else Z.min m2 n2 - 1) - t2 in
+          let e3 := p3 * s3 + (if full then 0 else Z.min m3 n3 - 1) - t3 in
+          mul (if (0 <=? e1) && (e1 <? m1) && ((0 <=? e2) && (e2 <? m2) && ((0 <=? e3) && (e3 <? m3)))
+               then data (bi ++ [e1; e2; e3]) else zero)
+              (filt [t1; t2; t3])))).
+Proof. exact convolve_3d_sc. Qed.
+Print Assumptions C08_3D_single_channel_convolve_is_the_convolution_sum.
+
+Theorem C08_3D_adjoints_exact :
+  forall (R : StarRing) (b : list Z) (full : bool), Forall (fun k => 0 < k) b ->
+  forall m1 m2 m3 n1 n2 n3 s1 s2 s3,
+    0 < m1 -> 0 < m2 -> 0 < m3 -> 0 < n1 -> 0 < n2 -> 0 < n3 -> 0 < s1 -> 0 < s2 -> 0 < s3 ->
+    (full = false -> n1 <= m1 /\ n2 <= m2 /\ n3 <= m3) ->
+  forall ci co, 0 < ci -> 0 < co ->
+    let P1 := if full then (m1 + n1 - 1 + s1 - 1) / s1 else (m1 - n1 + 1 + s1 - 1) / s1 in
+    let P2 := if full then (m2 + n2 - 1 + s2 - 1) / s2 else (m2 - n2 + 1 + s2 - 1) / s2 in
+    let P3 := if full then (m3 + n3 - 1 + s3 - 1) / s3 else (m3 - n3 + 1 + s3 - 1) / s3 in
+    exists A AHd AHf : (list Z -> R) -> (list Z -> R) -> (list Z -> R),
+      (forall x f, convolve (b ++ [ci; m1; m2; m3]) [co; ci; n1; n2; n3] full (Some [s1; s2; s3]) true x f
+                   = Ok (b ++ [co; P1; P2; P3], A x f)) /\
+      (forall y f, convolve_data_adjoint (b ++ [co; P1; P2; P3]) [co; ci; n1; n2; n3] (b ++ [ci; m1; m2; m3]) full
+                     (Some [s1; s2; s3]) true y f = Ok (b ++ [ci; m1; m2; m3], AHd y f)) /\
+      (forall y x, convolve_filter_adjoint (b ++ [co; P1; P2; P3]) (b ++ [ci; m1; m2; m3]) [co; ci; n1; n2; n3] full
+                     (Some [s1; s2; s3]) true y x = Ok ([co; ci; n1; n2; n3], AHf y x)) /\
+      (forall x f y, inner (b ++ [co; P1; P2; P3]) (A x f) y = inner (b ++ [ci; m1; m2; m3]) x (AHd y f)) /\
+      (forall x f y, inner (b ++ [co; P1; P2; P3]) (A x f) y = inner [co; ci; n1; n2; n3] f (AHf y x)).
+Proof. exact adjoints_3d_mc. Qed.
+Print Assumptions C08_3D_adjoints_exact.
+
+Theorem C08_3D_single_channel_adjoints_exact :
+  forall (R : StarRing) (b : list Z) (full : bool), Forall (fun k => 0 < k) b ->
+  forall m1 m2 m3 n1 n2 n3 s1 s2 s3,
+    0 < m1 -> 0 < m2 -> 0 < m3 -> 0 < n1 -> 0 < n2 -> 0 < n3 -> 0 < s1 -> 0 < s2 -> 0 < s3 ->
+    (full = false -> n1 <= m1 /\ n2 <= m2 /\ n3 <= m3) ->
+    let P1 := if full then (m1 + n1 - 1 + s1 - 1) / s1 else (m1 - n1 + 1 + s1 - 1) / s1 in
+    let P2 := if full then (m2 + n2 - 1 + s2 - 1) / s2 else (m2 - n2 + 1 + s2 - 1) / s2 in
+    let P3 := if full then (m3 + n3 - 1 + s3 - 1) / s3 else (m3 - n3 + 1 + s3 - 1) / s3 in
+    exists A AHd AHf : (list Z -> R) -> (list Z -> R) -> (list Z -> R),
+      (forall x f, convolve (b ++ [m1; m2; m3]) [n1; n2; n3] full (Some [s1; s2; s3]) false x f
+                   = Ok (b ++ [P1; P2; P3], A x f)) /\
+      (forall y f, convolve_data_adjoint (b ++ [P1; P2; P3]) [n1; n2; n3] (b ++ [m1; m2; m3]) full
+                     (Some [s1; s2; s3]) false y f = Ok (b ++ [m1; m2; m3], AHd y f)) /\
+      (forall y x, convolve_filter_adjoint (b ++ [P1; P2; P3]) (b ++ [m1; m2; m3]) [n1; n2; n3] full
+                     (Some [s1; s2; s3]) false y x = Ok ([n1; n2; n3], AHf y x)) /\
+      (forall x f y, inner (b ++ [P1; P2; P3]) (A x f) y = inner (b ++ [m1; m2; m3]) x (AHd y f)) /\
+      (forall x f y, inner (b ++ [P1; P2; P3]) (A x f) y = inner [n1; n2; n3] f (AHf y x)).
+Proof. exact adjoints_3d_sc. Qed.
+Print Assumptions C08_3D_single_channel_adjoints_exact.
+
+(* the hypotheses are satisfiable and the model computes in 2-D (Gaussian integers, multi_channel = False):
+   data [[1, 2, 3+i, 4], [5, 6, 7, 8]], filter [[1, i], [2, -1]];
+   'valid', strides (1, 2): [[9+5i, 13+6i]];   'full', strides (2, 2): [[1, 3+3i, 4i], [10, 8, -8]]   (= sigpy) *)
+Example C08_ND_hypotheses_satisfiable :
+  let data := fun idx : list Z =>
+    nth (Z.to_nat (nth 0 idx 0 * 4 + nth 1 idx 0)) [(1, 0); (2, 0); (3, 1); (4, 0); (5, 0); (6, 0); (7, 0); (8, 0)] (0, 0) in
+  let filt := fun idx : list Z => nth (Z.to_nat (nth 0 idx 0 * 2 + nth 1 idx 0)) [(1, 0); (0, 1); (2, 0); (-1, 0)] (0, 0) in
+  (match convolve (R:=GOps) [2; 4] [2; 2] false (Some [1; 2]) false data filt with
+   | Ok (sh, y) => (sh, map y [[0; 0]; [0; 1]])
+   | Err _ => ([], [])
+   end = ([1; 2], [(9, 5); (13, 6)])) /\
+  (match convolve (R:=GOps) [2; 4] [2; 2] true (Some [2; 2]) false data filt with
+   | Ok (sh, y) => (sh, map y [[0; 0]; [0; 1]; [0; 2]; [1; 0]; [1; 1]; [1; 2]])
+   | Err _ => ([], [])
+   end = ([2; 3], [(1, 0); (3, 3); (0, 4); (10, 0); (8, 0); (-8, 0)])).
+Proof. vm_compute. split; reflexivity. Qed.
+
+(* ---- rejection, any D, both conventions: 'valid' mode with the filter longer than the data on some axis.
+   Either another axis has m_d >= n_d (mixed: _get_convolve_params raises, E_conv) or the filter is longer on every
+   axis and some output length (m_d - n_d + 1 + s_d - 1) / s_d is non-positive (E_nonpos). ---- *)
+Theorem C08_ND_reject_valid_longer_filter :
+  forall (R : Ops) (b m n s : list Z) (st : option (list Z)),
+    m <> [] -> length n = length m -> length s = length m -> Forall (fun k => 0 < k) s ->
+    (st = Some s \/ (st = None /\ s = repeat 1 (length m))) ->
+    existsb (fun p => fst p <? snd p) (combine m n) = true ->
+    let e := if existsb (fun p => snd p <=? fst p) (combine m n) then E_conv else E_nonpos in
+    forall ci co,
+    (forall d f : list Z -> R, convolve (b ++ [ci] ++ m) ([co; ci] ++ n) false st true d f = Err e) /\
+    (forall osh (y f : list Z -> R),
+       convolve_data_adjoint osh ([co; ci] ++ n) (b ++ [ci] ++ m) false st true y f = Err e) /\
+    (forall osh (y d : list Z -> R),
+       convolve_filter_adjoint osh (b ++ [ci] ++ m) ([co; ci] ++ n) false st true y d = Err e).
+Proof. exact valid_longer_filter_nd_mc. Qed.
+Print Assumptions C08_ND_reject_valid_longer_filter.
+
+Theorem C08_ND_single_channel_reject_valid_longer_filter :
+  forall (R : Ops) (b m n s : list Z) (st : option (list Z)),
+    m <> [] -> length n = length m -> length s = length m -> Forall (fun k => 0 < k) s ->
+    (st = Some s \/ (st = None /\ s = repeat 1 (length m))) ->
+    existsb (fun p => fst p <? snd p) (combine m n) = true ->
+    let e := if existsb (fun p => snd p <=? fst p) (combine m n) then E_conv else E_nonpos in
+    (forall d f : list Z -> R, convolve (b ++ m) n false st false d f = Err e) /\
+    (forall osh (y f : list Z -> R), convolve_data_adjoint osh n (b ++ m) false st false y f = Err e) /\
+    (forall osh (y d : list Z -> R), convolve_filter_adjoint osh (b ++ m) n false st false y d = Err e).
+Proof. exact valid_longer_filter_nd_sc. Qed.
+Print Assumptions C08_ND_single_channel_reject_valid_longer_filter.
